@@ -58,6 +58,16 @@
 //   - CONC-9  nodes.<function>:single-threaded — no go statement in the functions of package nodes reachable
 //     from its Value() methods.
 //
+//   - CONC-10 nodes.<function>:commit-after-success — the stores that mark a node up to date are dominated by
+//     its Processor.Process call and are not made by a deferred function (unless under recover() == nil).
+//
+//   - CONC-11 <function>:per-request-output — the ResponseWriter is never installed into, and a request's
+//     result never staged in, a writer object that outlives the request (server field, package variable);
+//     sync.Pool Get/Put is accepted.
+//
+//   - VIS-2   <function>:update-applied — between the HTTP handler and Instance.UpdateParameter every return
+//     that is not dominated by the call reports an error.
+//
 // Evidence also lists (notes, coverage.other_instance_methods) what the other Instance methods touch
 // without the mutex and which HTTP handlers reach them; the property does not quantify over them.
 package c13
